@@ -9,6 +9,7 @@ import DesyncModel.FactDrop
 import DesyncModel.Lemmas
 import DesyncModel.Setters
 import DesyncModel.Inv.JobReach
+import DesyncModel.Inv.RunReach
 
 namespace Desync.C05
 open Desync Gen
@@ -52,5 +53,13 @@ other job of the queue is open (instance of C01's `exclusive_reachable`) -/
 theorem free_is_exclusive {s : State} (hr : Reachable s) {jf j : Nat} {bf b : Job}
     (hf : s.jobs[jf]? = some bf) (hj : s.jobs[j]? = some b) (hq : b.q = bf.q) (hof : bf.isOpen = true) (ho : b.isOpen = true) : j = jf :=
   exclusive_reachable hr j jf b bf hj hf hq ho hof
+
+/-- **The value is freed at most once**: the closure `Desync::drop` runs on the queue (body `free q`) is, like every closure,
+invoked at most once — the job that carries it is started only if it has not begun. -/
+theorem free_closure_runs_at_most_once {s : State} (hr : Reachable s) {a j owner q : Nat} {c : Ctx} {k : Pc} {jb : Job}
+    (hpc : s.pcAt a = .jobStart j c k) (hj : s.jobs[j]? = some jb)
+    (hk : jb.kind = .erasedDrain owner (.free q) ∨ jb.kind = .erasedBg owner (.free q)) : jb.begun = false := by
+  refine closure_invoked_at_most_once hr (Or.inl hpc) hj ?_
+  rcases hk with h | h <;> rw [h] <;> rfl
 
 end Desync.C05
